@@ -353,7 +353,7 @@ package sftp
 //@   ensures 0 <= k && k < len(entries) ==> entries[k] != nil
 //@   loop 1 invariant 0 <= k && k < len(entries) ==> entries[k] != nil
 //@   loop 2 invariant 0 <= k && k < len(entries) ==> entries[k] != nil
-//@   property C20, C16, C03
+//@   property C20, C16, C03, C05
 //@   requires connOK(c)
 //@   update after call (*Client).opendir#1: ghost.rem = 0
 //@   loop 1 ghost rem
@@ -800,6 +800,8 @@ package sftp
 //  wrappers, keep their kind; SFTP status codes returned by handlers are passed through as given)
 
 //@ func handlePacket
+//@   assert before call (*packetManager).readyPacket#1: typeis(arg1.responsePacket, *sshFxpDataPacket) ==> len(arg1.responsePacket.(*sshFxpDataPacket).Data) == int(arg1.responsePacket.(*sshFxpDataPacket).Length)
+// (C18 / C06: a DATA response carries exactly Length bytes -- nothing of the buffer behind what was read)
 //@   assert before call statusFromError#15: !ok ==> arg1 != nil
 //@   assert before call (file).WriteAt#1: ok
 //@   assert before call (file).ReadAt#1: ok
@@ -1419,6 +1421,7 @@ package sftp
 //@   ensures typeis(p, *sshFxpReadPacket) ==> offset == int64(p.(*sshFxpReadPacket).Offset)
 
 //@ func fileget
+//@   ensures typeis(pkt, *sshFxpReadPacket) && typeis(result, *sshFxpDataPacket) ==> len(result.(*sshFxpDataPacket).Data) == int(result.(*sshFxpDataPacket).Length)
 //@   property C07, C02, C01, C18, C15
 //@   assert before call packetData#1: arg0 == pkt && arg1 == alloc && arg2 == orderID && arg3 == maxTxPacket
 //@   assert before call (io.ReaderAt).ReadAt#1: arg1 == data && arg2 == offset
@@ -1434,6 +1437,7 @@ package sftp
 //@   ensures typeis(result, *sshFxpStatusPacket)
 
 //@ func fileputget
+//@   ensures typeis(result, *sshFxpDataPacket) ==> len(result.(*sshFxpDataPacket).Data) == int(result.(*sshFxpDataPacket).Length)
 //@   property C07, C02, C01, C18, C15
 //@   assert before call (*sshFxpReadPacket).getDataSlice#1: arg1 == alloc && arg2 == orderID && arg3 == maxTxPacket
 //@   assert before call (WriterAtReaderAt).ReadAt#1: arg2 == int64(p.Offset)
